@@ -13,6 +13,7 @@ token tables.  Python records type signatures / exception class names only.
 """
 from __future__ import annotations
 
+import json
 import random
 
 from .. import hostile as H
@@ -46,14 +47,18 @@ def execute(ctx: Ctx, items):
 
 
 def judge_classes(ctx: Ctx, classes, kind="c07"):
-    lines = H.class_lines(classes)
+    """One TLC judge run over the recorder's schema lines and every distinct outcome vector."""
+    sch = H.schema_lines()
+    lines = sch + H.class_lines(classes)
+    for k, ln in enumerate(lines):
+        ln["t"] = k
     rejects = ctx.judge(AREA, "HostileTrace", lines, batch=1500)
     seen = {}
     outside = ctx.notes.setdefault("uses_outside_the_property_statement_that_failed", [])
     for r in sorted(rejects, key=lambda r: (r["t"], r["w"])):
         ln = lines[r["t"]]
         if r["clause"] in ("MalformedTraceLine", "OutOfDomain", "SchemaMismatch"):
-            raise MachineryError(f"judge: {r['clause']} for {ln['fn']}@{ln['slot']} ex={[_text(e) for e in ln['ex']][:2]!r}")
+            raise MachineryError(f"judge: {r['clause']} for line {json.dumps(ln)[:400]}")
         pos = _names(ln["fn"])[r["w"] - 1]
         what = ln["ty"][r["w"] - 1][0] if ln["kd"][r["w"] - 1] != 0 else "|".join(ln["ty"][r["w"] - 1])
         where = ln["fn"] + ("@" + ln["slot"] if ln["fn"] == "Request" else "")
@@ -61,23 +66,18 @@ def judge_classes(ctx: Ctx, classes, kind="c07"):
         ex = _text(ln["ex"][0])
         if not r["core"]:
             if len(outside) < 40 and not any(o["key"] == key for o in outside):
-                outside.append({"key": key, "example": ex})
+                outside.append({"key": key, "example": ex[:80], "example_length": len(ex)})
             continue
         cur = seen.get(key)
         if cur is None or (len(ex), ex) < (len(cur["s"]), cur["s"]):
-            seen[key] = {"fn": ln["fn"], "slot": ln["slot"], "s": ex, "position": pos, "observed": what, "n": ln["n"] + (cur["n"] if cur else 0)}
+            seen[key] = {"fn": ln["fn"], "slot": ln["slot"], "s": ex, "position": pos, "observed": what,
+                         "n": ln["n"] + (cur["n"] if cur else 0)}
         else:
             cur["n"] += ln["n"]
     ctx.notes.setdefault("rejected_keys", []).extend(sorted(seen))
     for key, case in sorted(seen.items()):
         ctx.violation(key, key.split(":")[2], case, kind=kind)
-    return lines
-
-
-def schema(ctx: Ctx):
-    rej = ctx.judge(AREA, "HostileTrace", H.schema_lines())
-    if rej:
-        raise MachineryError(f"position names of the recorder differ from Hostile!Table: {rej[:3]}")
+    return lines[len(sch):]
 
 
 def run(ctx: Ctx):
@@ -86,7 +86,7 @@ def run(ctx: Ctx):
     ctx.rule = ("case = (function or Request environ slot, hostile text): the function is called / the Request is built from a "
                 "well-formed environ with the text in that client-controlled variable and every position of Hostile!Table "
                 "(the call, the uses of the result, every public Request attribute) is executed; texts = TLC-enumerated token "
-                "sequences per header family, every domain character in every context, pumped tokens (~4 KiB), seeded random "
+                "sequences per header family, every domain character in every context, pumped tokens and token pairs (1-8 KiB), seeded random "
                 "token sequences (also across families); identical outcome vectors are grouped and each distinct vector is "
                 "judged by TLC; non-trivial = distinct (function/slot, text) whose text has >= 2 tokens or is a sweep/pump text")
     ctx.assumptions += [
@@ -97,15 +97,13 @@ def run(ctx: Ctx):
         "the property's quantifier)",
         "offers passed to membership / best_match are valid (an invalid mimetype *offer* raises a documented ValueError for the developer)",
         "non-termination is observed as: one call plus all uses of its result on a text of <= ~8 KiB does not finish within "
-        f"{H.BUDGET_S} s wall time",
+        f"{H.BUDGET_S} s of CPU time (ITIMER_VIRTUAL, so machine load cannot cause a false alarm)",
         "serialisers applied to parsed objects (to_header, str, http_date, ...) are executed and reported "
         "(coverage.uses_outside_the_property_statement_that_failed) but are not in the property statement: never a verdict",
     ]
-    schema(ctx)
     # 1./2. TLC enumerates the input space (invariants checked in the same runs) and exports it
-    cfgs = ["MCX_q2", "MCX_q3core"] if q else ["MCX_t3", "MCX_t4core"]
     tables, texts = {}, {}
-    for cfg in cfgs:
+    for cfg in ["MCX_quick" if q else "MCX_thorough"]:
         for v in ctx.export(AREA, "MCHostile", cfg, timeout=3000):
             if not isinstance(v, dict):
                 continue
@@ -118,8 +116,9 @@ def run(ctx: Ctx):
     ctx.exhaustive = False
     ctx.notes["texts_enumerated_by_tlc"] = {f"{f}/{m}": len(s) for (f, m), s in sorted(texts.items())}
     items = []
-    nontriv = 0
-    # Request calls are ~30x dearer than pure calls: in the quick tier the long token sequences go to a seeded sample of slots
+    trivial = set()          # texts of at most one token
+    # every text goes to every pure function of its family; a Request is ~30x dearer than a pure call, so sequences of >= 3
+    # tokens (and, in the quick tier, 2-token sequences / sweep / pump texts) go to a seeded sample of the family's slots
     for (fam, mode), ss in sorted(texts.items()):
         tb = tables[fam]
         for s, ntok in sorted(ss.items()):
@@ -127,19 +126,21 @@ def run(ctx: Ctx):
                 items.append((fn, "-", s))
             slots = tb["slots"]
             if mode == "seq" and ntok >= 3:
-                slots = rng.sample(slots, 1 if q else 2)
+                slots = rng.sample(slots, 1)
             elif mode == "seq" and ntok == 2 and q:
-                slots = rng.sample(slots, min(3, len(slots)))
-            elif mode == "sweep" and q:
                 slots = rng.sample(slots, min(2, len(slots)))
+            elif mode == "sweep" and q:
+                slots = rng.sample(slots, 1)
+            elif mode in ("pump", "pump2") and q:
+                slots = rng.sample(slots, 1)
             for sl in slots:
                 items.append(("Request", sl, s))
-            if mode != "seq" or ntok >= 2:
-                nontriv += len(tb["fns"]) + len(slots)
+            if mode == "seq" and ntok <= 1:
+                trivial.add(s)
     # 3. seeded random: longer sequences within a family, and texts of any family fed to any function / slot
     fams = sorted(tables)
     all_fns = [fn for fn in H.PURE_FNS]
-    n_rand = 6000 if q else 250000
+    n_rand = 3000 if q else 150000
     for _ in range(n_rand):
         fam = rng.choice(fams)
         tb = tables[fam]
@@ -151,13 +152,11 @@ def run(ctx: Ctx):
             fn = rng.choice(all_fns)
             items.append((fn, "-", s))
             items.append(("Request", rng.choice(H.SLOTS), s))
-            nontriv += 2
         else:
             for fn in tb["fns"]:
                 items.append((fn, "-", s))
             sl = rng.choice(tb["slots"])
             items.append(("Request", sl, s))
-            nontriv += len(tb["fns"]) + 1
     items = sorted(set(items))
     rng.shuffle(items)
     ctx.notes["calls_by_function"] = {}
@@ -165,17 +164,16 @@ def run(ctx: Ctx):
         k = fn if fn != "Request" else "Request@" + sl
         ctx.notes["calls_by_function"][k] = ctx.notes["calls_by_function"].get(k, 0) + 1
     classes = execute(ctx, items)
-    ctx.nontrivial.update(range(min(nontriv, len(items))))
+    ctx.nontrivial = range(sum(1 for it in items if it[2] not in trivial))   # only its size is reported (items are distinct)
     ctx.notes["distinct_outcome_vectors"] = len(classes)
     lines = judge_classes(ctx, classes)
     for ln in lines[:: max(1, len(lines) // 6)]:
-        ctx.sample({"fn": ln["fn"], "slot": ln["slot"], "text": _text(ln["ex"][0]), "calls_with_this_outcome": ln["n"],
+        ctx.sample({"fn": ln["fn"], "slot": ln["slot"], "text": _text(ln["ex"][0])[:80], "calls_with_this_outcome": ln["n"],
                     "outcome": [[n, k, t] for n, k, t in zip(_names(ln["fn"]), ln["kd"], ln["ty"]) if k != 3][:6]})
 
 
 def replay(ctx: Ctx, data):
     c = data["case"]
-    schema(ctx)
     classes = H.run_batch([(c["fn"], c["slot"], c["s"])])
     ctx.count(1)
     ctx.sample(c)
